@@ -134,8 +134,8 @@ func SubByDisplay(s string, length int) string {
 		return s
 	}
 
-	var dpl, end int
-	for _, v := range s {
+	var dpl int
+	for i, v := range s {
 		if v < utf8.RuneSelf {
 			dpl += 1
 		} else {
@@ -143,12 +143,10 @@ func SubByDisplay(s string, length int) string {
 		}
 
 		if dpl > length {
-			break
+			return s[:i]
 		}
-
-		end += utf8.RuneLen(v)
 	}
-	return s[:end]
+	return s
 }
 
 // RemoveRunes removes the specified characters from the string
